@@ -12,8 +12,8 @@
      new_attr_cache ttl maxSize                           NewAttrCache(ttl, maxSize)
      attr_configure_negative on ttl c                     ConfigureNegativeCaching(enable, ttl)
      attr_get now k c : attr_cache A * get_result A       Get(path)        Miss | NegHit | Hit a
-     attr_put now k a c                                   Put(path, attrs)         (attrs non-nil)
-     attr_put_negative now k c                            PutNegative(path)
+     attr_put now k a c                                   Put(path, attrs)         (attrs non-nil; Go panics on nil)
+     attr_put_negative now k c                            PutNegative(path)        (no-op while disabled)
      attr_invalidate k c                                  Invalidate(path)
      attr_invalidate_tree d c                             InvalidateTree(dirPath)
      attr_invalidate_negative_in_dir d c                  InvalidateNegativeInDir(dirPath)
@@ -27,8 +27,16 @@
      dir_invalidate / dir_invalidate_tree / dir_clear / dir_resize / dir_update_ttl / dir_size
    Histories: attr_op / dir_op, one constructor per method; attr_step / dir_step apply one
    (now, op); attr_run_obs / dir_run_obs give the observation of every step.
-   SPEC: tlru V (one recency-ordered association list), attr_spec / dir_spec with sa_* / sd_* and
-   sa_run_obs / sd_run_obs producing the same observation type.
+   SPEC: tlru V (one recency-ordered association list), attr_spec / dir_spec with sa_step_res /
+   sd_step_res and sa_run_obs / sd_run_obs producing the same observation type.  Proved in
+   Proofs/CacheProofs.v: attr_step_inv / dir_step_inv (every step keeps AInv / DInv: NoDup list,
+   list = dom map, size <= capacity), attr_step_sim / dir_step_sim (one step of the model = one step of
+   the spec under the relation AR / DR, sim_abs gives the abstract state of any concrete one), so an
+   importer may reason on the spec instead of the representation.
+   Behaviour worth knowing when importing: AttrCache hits iff now < expiry, DirCache iff now <= expiry;
+   an expired entry stays (and counts towards the capacity) until a Get meets it; NewAttrCache keeps a
+   ttl <= 0 as it is (every entry is born expired) while UpdateTTL replaces it by 5 s; a DirCache.Put
+   refused for its length leaves the previous listing of that path in place.
 
    Go -> Gallina (both caches share the representation, rendered once as [lru V])
      cache/entries map[string]*Cached...   l_map  : list (path * centry V)   keys unique (proved)
